@@ -14,6 +14,9 @@ use std::sync::{Arc, Mutex};
 use verif_harness::util::*;
 use verif_harness::Opts;
 
+static TOKENS_PARSED_AS_F64: std::sync::atomic::AtomicUsize = std::sync::atomic::AtomicUsize::new(0);
+static DIGITLESS_FLOATS: Mutex<Vec<String>> = Mutex::new(Vec::new());
+
 // ------------------------------------------------------------------ float tables
 #[derive(Default)]
 pub struct Orc {
@@ -43,6 +46,11 @@ impl Orc {
             return;
         }
         if let Ok(f) = s.parse::<f64>() {
+            // hypothesis parse_digit of the grammar theorems
+            TOKENS_PARSED_AS_F64.fetch_add(1, std::sync::atomic::Ordering::Relaxed);
+            if f.is_finite() && !s.chars().any(|c| c.is_ascii_digit()) {
+                DIGITLESS_FLOATS.lock().unwrap().push(s.to_string());
+            }
             self.parse.insert(s.to_string(), MFl::of(f));
             self.add_float(f);
         }
@@ -255,29 +263,11 @@ fn rewrap(s: &MSched) -> MSched {
         MSched::Seq(l) => MSched::Seq(l.iter().map(rewrap).collect()),
     }
 }
-fn lossy_variant(v: &MVariant) -> MVariant {
-    MVariant { unextractable: false, ..v.clone() }
-}
-/// the tree with the known lossy behaviours applied
+/// the tree the parser is known to return for the printed text: only the schedule re-wrapping
+/// (findings 3,4 of the first round — variant :unextractable, rewrite :name — are repaired)
 fn expected_after(c: &MCmd) -> MCmd {
     match c {
         MCmd::RunSchedule(s) => MCmd::RunSchedule(MSched::Seq(vec![rewrap(s)])),
-        MCmd::Datatype(n, vs) => MCmd::Datatype(n.clone(), vs.iter().map(lossy_variant).collect()),
-        MCmd::Datatypes(ds) => MCmd::Datatypes(
-            ds.iter()
-                .map(|(n, d)| {
-                    (
-                        n.clone(),
-                        match d {
-                            MSubdt::Variants(vs) => MSubdt::Variants(vs.iter().map(lossy_variant).collect()),
-                            o => o.clone(),
-                        },
-                    )
-                })
-                .collect(),
-        ),
-        MCmd::Rewrite(rs, w, s) => MCmd::Rewrite(rs.clone(), MRewrite { name: String::new(), ..w.clone() }, *s),
-        MCmd::BiRewrite(rs, w) => MCmd::BiRewrite(rs.clone(), MRewrite { name: String::new(), ..w.clone() }),
         MCmd::Fail(c) => MCmd::Fail(Box::new(expected_after(c))),
         o => o.clone(),
     }
@@ -301,18 +291,16 @@ pub fn roundtrip(ast0: &Command, chk: bool, origin: &str) -> (String, PR<Vec<MCm
         let input = format!("{{\"kind\":\"src\",\"chk\":{},\"text\":{}}}", chk, json_str(origin));
         let mut keys: Vec<&str> = vec![];
         if back == PR::Ok(vec![expected_after(&m0)]) {
-            if ft.variant_unextractable {
-                keys.push("C15-variant-unextractable-not-printed");
-            }
-            if ft.rewrite_name {
-                keys.push("C15-rewrite-name-not-printed");
-            }
             if ft.schedule {
                 keys.push("C15-schedule-reparse-adds-seq");
             }
         }
         if keys.is_empty() {
-            if ft.panic_special {
+            if ft.variant_unextractable {
+                keys.push("C15-variant-unextractable-not-printed");
+            } else if ft.rewrite_name {
+                keys.push("C15-rewrite-name-not-printed");
+            } else if ft.panic_special {
                 keys.push("F5-panic-msg-unescaped");
             } else if ft.rule_name_special {
                 keys.push("C15-rule-name-unescaped");
@@ -691,7 +679,7 @@ pub fn run(o: &Opts) -> i32 {
             cx.lit_case(&l);
         }
         // 3. generated programs over the whole grammar
-        let ncmd = if o.thorough { 60000 } else { 2500 };
+        let ncmd = if o.thorough { 60000 } else { 1500 };
         for i in 0..ncmd {
             let mut r = Rng::for_case(o.seed, i as u64);
             let m = gen::command(&mut r, 2);
@@ -732,6 +720,13 @@ pub fn run(o: &Opts) -> i32 {
     }
     // 6. hypotheses of the float theorems, on the real functions
     let ntest = float_hypothesis(o.seed, if o.thorough { 1_000_000 } else { 100_000 }, &mut cx.violations);
+    for t in DIGITLESS_FLOATS.lock().unwrap().iter().take(5) {
+        cx.violations.push(Violation {
+            key: "C15-float-oracle-hypothesis".into(),
+            what: format!("token {:?} has no digit but parses as a finite f64", t),
+            input: format!("{{\"kind\":\"src\",\"chk\":true,\"text\":{}}}", json_str(&format!("(f {})", t))),
+        });
+    }
     cx.w.flush();
     // one entry per key (first input), plus a count
     let mut by_key: BTreeMap<String, (usize, &Violation)> = BTreeMap::new();
@@ -744,7 +739,7 @@ pub fn run(o: &Opts) -> i32 {
         .collect();
     let h = |m: &BTreeMap<String, usize>| serde_json::to_string(m).unwrap();
     let report = format!(
-        "{{\"sub\":\"syntax\",\"cases\":{},\"shards\":{},\"distinct_nontrivial\":{},\"rule\":{},\"kind_hist\":{},\"result_hist\":{},\"command_hist\":{},\"option_hist\":{},\"samples\":[{}],\"violations\":[{}],\"extra_coverage\":{{\"float_oracle_hypothesis_values_tested\":{}{}}}}}\n",
+        "{{\"sub\":\"syntax\",\"cases\":{},\"shards\":{},\"distinct_nontrivial\":{},\"rule\":{},\"kind_hist\":{},\"result_hist\":{},\"command_hist\":{},\"option_hist\":{},\"samples\":[{}],\"violations\":[{}],\"extra_coverage\":{{\"float_oracle_hypothesis_values_tested\":{},\"tokens_checked_for_digit_hypothesis\":{}{}}}}}\n",
         cx.w.total,
         cx.w.shards,
         cx.nontrivial,
@@ -756,6 +751,7 @@ pub fn run(o: &Opts) -> i32 {
         cx.samples.join(","),
         viols.join(","),
         ntest,
+        TOKENS_PARSED_AS_F64.load(std::sync::atomic::Ordering::Relaxed),
         extra
     );
     std::fs::write(o.out.join("impl_report.json"), report).unwrap();
